@@ -730,6 +730,12 @@ package h2
 //@   noframe
 //@   at send 0 after set nDoneSig = nDoneSig + 1
 //@   ensures[reader-done-signal-is-delivered-not-dropped] nDoneSig == old(nDoneSig) + 1
+// the goroutine that reads one frame reports through frameReady; when relayFrames has already left (shutdown, write
+// error) nobody receives any more, so the report needs room in the channel or the goroutine never ends
+//@ func (*relay).relayFrames$3
+//@   serves C10
+//@   requires[frame-ready-report-has-room-in-the-channel-so-an-abandoned-read-can-finish] cap(frameReady) >= 1
+//@   noframe
 //@ func (*relay).relayFrames
 //@   serves C10
 //@   requires r != nil && r.peer != nil && relayReady(r) && relayReady(r.peer) && contInv(r) && r.enableDebugLogs != nil && r.src != nil
